@@ -140,8 +140,9 @@ class KeyMap:
         # Key series now contains row_number: hash for each row in the dataframe
 
         # Add a column containing the mapped index for each row
-        map_series = pd.Series(self.map_dict)  # map_series is hash:row_index for each entry in the map_dict index
-        key_values = key_series.map(map_series)  # key_values is df_row_number:map_dict_index
+        # key_values is df_row_number:map_dict_index (map_dict is hash:row_index for each entry of the map).
+        # Mapping through the dict itself: a Series indexed by the 64-bit hashes can be mis-built by pandas.
+        key_values = key_series.map(self.map_dict)
         # e.g. a key_value entry of 0:79 means row 0 maps to row 79 in the map_dict
 
         # This adds the map_dict_index column, to merged_df as a new column "key_value"
